@@ -1,6 +1,6 @@
 (* C07 — shape of the generated cases and the two executable verdicts. No proofs. *)
 From VLib Require Import CaseLib.
-From C07 Require Import Model.
+From C07 Require Import Model ModelFiles.
 
 (* the code as it is now: all-token queued last (a28a3f7), fetch guard (5d51c58), suicided proxy answers Info (716fc27) *)
 Definition cur_ver : version := mkVer true true true.
@@ -9,7 +9,11 @@ Definition nreaders : nat := 3.
 Inductive case :=
 (* per writer its bulks; the queries (AST as parsed by the real parser); the schedule; one observation per label
    as made on the real code *)
-| CSched (wb : list (list bulk)) (qs : list qspec) (ls : list label) (os : list obs).
+| CSched (wb : list (list bulk)) (qs : list qspec) (ls : list label) (os : list obs)
+(* the same with the fraction options frac.Config{SkipSortDocs, KeepMetaFile} the store ran with, and per label the
+   file / descriptor state of every fraction as observed on the real process after the step (ModelFiles.res_code) *)
+| CSchedF (skip keep : bool) (wb : list (list bulk)) (qs : list qspec) (ls : list label) (os : list obs)
+          (fs : list (list N)).
 
 Definition optN_eqb := option_eqb N.eqb.
 Definition obs_eqb (a b : obs) : bool :=
@@ -28,6 +32,11 @@ Definition case_agrees (c : case) : bool :=
   | CSched wb qs ls os =>
       let cfg := mkCfg cur_ver wb qs in
       list_eqb obs_eqb (run cfg (init cfg nreaders) ls) os
+  | CSchedF skip keep wb qs ls os fs =>
+      let cfg := mkCfg cur_ver wb qs in
+      Nat.eqb (length os) (length fs)
+      && list_eqb (fun a b => obs_eqb (fst a) (fst b) && list_eqb N.eqb (snd a) (snd b))
+                  (xrun (mkOpts skip keep false) cfg (xinit cfg nreaders) ls) (combine os fs)
   end.
 
 (* ------------------------------------------------------------------------------------------------
@@ -158,9 +167,58 @@ Fixpoint grun (wb : list (list bulk)) (qs : list qspec) (gh : ghost) (ls : list 
 Definition ghost0 (wb : list (list bulk)) : ghost :=
   mkG 1 0 (map (fun _ => 0) wb) (map (fun _ => 0) wb) [] [] (repeat [] nreaders) (repeat GNone nreaders) [] true.
 
+(* ------------------------------------------------------------------------------------------------
+   File part of the spec checker, again WITHOUT the model: from the labels and the schedule points the real code
+   reached it keeps which fractions exist, which have their sealed fraction installed (seal.swapped reached) and
+   which retention has removed; after EVERY step every live provider must have what it reads from:
+     a fraction that is still served by its active form: descriptors on .docs and .meta open, both files present;
+     a fraction served by the sealed form: the index descriptor open and .index present, and the document
+     descriptor it reads from (the active fraction's own one on .docs, or its own on .sdocs) open with its file
+     present.
+   (A closed descriptor under a live sealed provider = "an ID a search returned cannot be fetched".) *)
+Record fghost := mkFG { fg_nfr : nat; fg_shift : nat; fg_swapped : list nat }.
+
+Definition fstep (gh : fghost) (l : label) (o : obs) : fghost :=
+  match l, o with
+  | LRot, OUnit => mkFG (S (fg_nfr gh)) (fg_shift gh) (fg_swapped gh)
+  | LSui, OUnit => mkFG (fg_nfr gh) (S (fg_shift gh)) (fg_swapped gh)
+  | LM g, OHook h => if N.eqb h 33 then mkFG (fg_nfr gh) (fg_shift gh) (N.to_nat g :: fg_swapped gh) else gh
+  | _, _ => gh
+  end.
+
+Definition has_bits (m want : N) : bool := N.eqb (N.land m want) want.
+
+Definition provider_ok (gh : fghost) (g : nat) (m : N) : bool :=
+  if Nat.ltb g (fg_shift gh) then true                                   (* removed by retention *)
+  else if memn g (fg_swapped gh) then
+         has_bits m 136                                                    (* index: descriptor + file *)
+         && (if has_bits m 768 then false                                  (* an unknown document descriptor *)
+             else if has_bits m 256 then has_bits m 17                     (* the active fraction's descriptor, .docs *)
+             else if has_bits m 512 then has_bits m 68                     (* its own descriptor on .sdocs *)
+             else false)
+       else has_bits m 51.                                                 (* active form: docs + meta *)
+
+Fixpoint all_ok (gh : fghost) (g : nat) (ms : list N) : bool :=
+  match ms with
+  | [] => true
+  | m :: r => provider_ok gh g m && all_ok gh (S g) r
+  end.
+
+Fixpoint frun (gh : fghost) (ls : list label) (os : list obs) (fs : list (list N)) : bool :=
+  match ls, os, fs with
+  | [], [], [] => true
+  | l :: lr, o :: or, ms :: fr =>
+      let gh' := fstep gh l o in
+      Nat.eqb (length ms) (fg_nfr gh') && all_ok gh' 0 ms && frun gh' lr or fr
+  | _, _, _ => false
+  end.
+
 (* implementation output satisfies the property *)
 Definition case_spec_ok (c : case) : bool :=
-  match c with CSched wb qs ls os => grun wb qs (ghost0 wb) ls os end.
+  match c with
+  | CSched wb qs ls os => grun wb qs (ghost0 wb) ls os
+  | CSchedF _ _ wb qs ls os fs => grun wb qs (ghost0 wb) ls os && frun (mkFG 1 0 []) ls os fs
+  end.
 
 Definition diff_indices (l : list case) : list nat := bad_indices (fun c => negb (case_agrees c)) l.
 Definition specfail_indices (l : list case) : list nat := bad_indices (fun c => negb (case_spec_ok c)) l.
